@@ -5,7 +5,7 @@ NA = {
 "C01":"Sequential ADT refinement over single-goroutine call histories; no schedule, fault, clock or interleaving for a simulator to own (DESIGN.md §4).",
 "C02":"Function of the single-goroutine call history and collator choice; nothing blocks, spawns or shares state (DESIGN.md §4).",
 "C03":"Single-goroutine history; the two internal structures are updated with nothing able to interleave or abort between them (DESIGN.md §4).",
-"C07":"Pure function of two arguments; Go map iteration order is not a seam a simulator can own (DESIGN.md §4).",
+"C07":"Pure function of two arguments: every clause is falsified by a pair or triple of values, i.e. by input enumeration, not by a schedule, fault, clock or interleaving. Go's randomised map iteration is the only run-time choice it can meet; the simulator owns it (simrt.MapSeq / MapKeysOf, so that C11 and C19 runs replay, and C11 exercises it for Maps inside Sets) but it adds nothing blocking, concurrent or faulty to C07 (DESIGN.md §4).",
 "C08":"Pure function; the depth-limit panic is input-driven and deterministic (DESIGN.md §4).",
 "C09":"Pure function of array and ranker; the crypto/rand draw in ShuffleValues is put behind a seam only so C19 replays (DESIGN.md §4).",
 "C10":"Pure in the value and call history; its concurrent and blocking paths are decided under C11/C12, C05 and C19 (DESIGN.md §4).",
@@ -29,10 +29,10 @@ CLAIMED = {
   text="The library's Fork/Split/Join helper goroutines are adopted as simulator tasks through the rewritten go statements; feeder, readers and main are harness tasks. The small configuration matrix of the property is enumerated completely and each configuration is run under many seeded schedules (plus sampled large configurations); outputs, closure propagation, termination, wait-group balance, panics and data races are checked per run.",
   note="Same trusted base as C04; configurations enumerated, schedules sampled."),
 "C11": dict(ref="§3.4", technique="deterministic simulation: grammar-derived sentences parsed as a two-task scanner/parser simulation under several seeded schedules, strconv-evaluated meaning oracle",
-  text="Every sentence (systematic context x layout x literal matrix, must-reject literals, grammar-drawn documents up to 400 tokens) is parsed by the real scanner goroutine and recursive-descent parser under 3 (quick) or 12 (thorough) controlled schedules including parser-first and scanner-first extremes; the parsed value is walked through the public API and compared with the derivation tree evaluated by strconv, and all schedules must agree. The harness refuses to run when the repository's grammar file no longer matches its encoding.",
+  text="Every sentence (systematic context x layout x literal matrix, must-reject literals, long documents, association lists and both empty forms under every context, whole literal pools and multi-key Maps as Set members, Sets of deeply nested members, grammar-drawn documents up to 400 tokens) is parsed by the real scanner goroutine and recursive-descent parser under 3 (quick) or 12 (thorough) controlled schedules including parser-first and scanner-first extremes; the parsed value is walked through the public API and compared with the derivation tree evaluated by strconv, and all schedules must agree (Go map iteration order inside the library is drawn from the tape as well). One known finding (known_findings.json): a Set whose two members are equal beyond nesting depth 16 is rejected. The harness refuses to run when the repository's grammar file no longer matches its encoding.",
   note="Trusts strconv as the definition of literal meaning, the library collator for Set order, the harness's encoding of the grammar (cross-checked against Syntax.cdsn at start-up) and the simulator model."),
 "C12": dict(ref="§3.5", technique="deterministic simulation with fault injection: the token consumer (parser) dies by panic at an arbitrary token while the producer (scanner) is mid-stream; quiescence detection after main ends",
-  text="Malformed inputs of ten classes are parsed as a two-task simulation; the parser's own panic is the injected fault. After the main task has ended the scheduler keeps running, so a scanner goroutine left blocked on the full token queue is a deadlock the simulator sees; runtime errors, non-diagnostic panics, wrong or impossible diagnostic positions (checked against the harness's own tokenizer and viable-prefix recogniser) and hangs are violations. A worker killed by a fatal stack overflow is attributed to its announced input.",
+  text="Malformed (and some valid) inputs of sixteen classes are parsed as a two-task simulation; the parser's own panic is the injected fault. After the main task has ended the scheduler keeps running, so a scanner goroutine left blocked on the full token queue is a deadlock the simulator sees; runtime errors, non-diagnostic panics, wrong or impossible diagnostic positions (checked against the harness's own tokenizer and viable-prefix recogniser) and hangs are violations. A worker killed by a fatal stack overflow is attributed to its announced input. One known finding (known_findings.json): valid Sets whose two members are equal beyond nesting depth 16 end in the collator's depth-limit panic, which is no syntax diagnostic.",
   note="Trusts the harness tokenizer/recogniser (written from the grammar file) for the position oracle, applied only to token-level inputs; other inputs get the weaker check that the named token text really begins at the reported position."),
 "C19": dict(ref="§3.6", technique="deterministic simulation: per-task scripts on disjoint instances, serial reference vs seeded concurrent schedule with shared-variable access preemption, happens-before race oracle",
   text="Generated scripts over disjoint, task-private instances are executed serially (reference) and then concurrently under a seeded schedule in which accesses to variables already touched by two tasks become preemption points and read-modify-write statements on them are split; hidden shared state shows as a data race (vector clocks over every tracked struct field and package variable) or as a result log that differs from the serial reference; class accessors must return one class per type parameter. Every run starts from first-use state of the class registries.",
